@@ -97,8 +97,10 @@ def min_rate_reference(cx, sc, maxpil, minpil):
     return lb, ub
 
 
-def _setup(cx, stations, rows, sessions, sort, factory, limit_hi, warmup=False):
-    sc = alglib.build(cx, stations, rows, sessions, factory, limit_hi=limit_hi, sym_battery=False, finite_prev=(8,), warmup=warmup)
+def _setup(cx, stations, rows, sessions, sort, factory, limit_hi, warmup=False, foreign=False):
+    sc = alglib.build(cx, stations, rows, sessions, factory, limit_hi=limit_hi, sym_battery=False, finite_prev=(8,), warmup=warmup, foreign=foreign)
+    if foreign:
+        cx.tag("after_an_unrelated_simulation_in_the_same_process")
     if warmup:
         cx.tag("second_call_on_the_same_algorithm_object")
     for k, ev in enumerate(sc.evs):
@@ -199,11 +201,11 @@ def _possible(cx, prop):
     return cx._check(prop.z3()) == z3.sat
 
 
-def h_rr(cx, stations, rows, sessions, sort, inc, limit_hi, warmup=False):
+def h_rr(cx, stations, rows, sessions, sort, inc, limit_hi, warmup=False, foreign=False):
     env.install(cx)
     import acnportal.algorithms as ALG
 
-    sc, ks = _setup(cx, stations, rows, sessions, sort, lambda: ALG.RoundRobin(alglib.sort_fn(sort), continuous_inc=inc), limit_hi, warmup)
+    sc, ks = _setup(cx, stations, rows, sessions, sort, lambda: ALG.RoundRobin(alglib.sort_fn(sort), continuous_inc=inc), limit_hi, warmup, foreign)
     n = len(stations)
     maxpil = [float(v) for v in sc.net.max_pilot_signals]
     out = sc.algo.run()
@@ -341,6 +343,12 @@ def jobs(tier):
         if wu is True or not q:
             js.append(Job("greedy_second_call[av5+cc,%s%s]" % (sort, tagw), h_greedy, dict(stations=st, rows=[(1, 1)], sessions=SESS2, sort=sort, limit_hi=lh, warmup=wu), functions=FUNCS, max_paths=200000, timeout=6000,
                           bounds=dict(stations=[s_[0] for s_ in st], sessions=2, sort=sort, calls="warm-up call for two other sessions (0.2-0.7 kWh), then the judged call" + ("" if wu is True else "; every constraint updated in between")), cost=60))
+    # the judged round-robin call comes after an unrelated simulation (same station ids and kinds, other phases, a coarser increment)
+    for net_name, sort, inc_ in ((("cont+cc", "fcfs", 0.01),) if q else (("cont+cc", "fcfs", 0.01), ("cont+cont(2 rows)", "edf", 0.02))):
+        if net_name in nets:
+            st_, rows_, lh_ = nets[net_name]
+            js.append(Job("rr_after_other_simulation[%s,%s,inc=%s]" % (net_name, sort, inc_), h_rr, dict(stations=st_, rows=rows_, sessions=SESS2, sort=sort, inc=inc_, limit_hi=lh_, foreign=True), functions=FUNCS, max_paths=200000, timeout=6000,
+                          bounds=dict(stations=[s_[0] for s_ in st_], constraints=rows_, sessions=2, sort=sort, continuous_inc=inc_, history="another RoundRobin object with increment x4 scheduled a twin network first"), cost=60))
     # a period length that does not divide 60: bounds in A*periods and the laxity / processing-time keys use the exact ratio 60/period
     for net_name, sort, per in ((("cont+cc", "llf", 45),) if q else (("cont+cc", "llf", 45), ("cont+cc", "lrpt", 7), ("cont+cont(2 rows)", "fcfs", 40))):
         if net_name in nets:
